@@ -628,9 +628,14 @@ func (k *Key) UnmarshalCBOR(data []byte) error {
 	if err != nil {
 		return fmt.Errorf("kid: %w", err)
 	}
-	alg, _, err := decodeInt(tmp, keyLabelAlgorithm)
+	alg, exist, err := decodeInt(tmp, keyLabelAlgorithm)
 	if err != nil {
 		return fmt.Errorf("alg: %w", err)
+	}
+	if exist && alg == int64(AlgorithmReserved) {
+		// 0 stands for "no algorithm" in Key: on the wire it is the reserved
+		// value, which matches no key
+		return errors.New("alg: invalid value 0")
 	}
 	k.Algorithm = Algorithm(alg)
 	key_ops, err := decodeSlice(tmp, keyLabelKeyOps)
